@@ -38,6 +38,76 @@ SHIM = {
 }
 
 
+REPLAY_SRC = r'''
+// Native replay for C16: the REAL libavoid predicates against exact integer arithmetic on every configuration of a small
+// integer grid (all degenerate cases included).  Oracles are written from the definitions, in 64-bit integers.
+#include "libavoid/geometry.h"
+#include "libavoid/geomtypes.h"
+#include <cstdio>
+using namespace Avoid;
+typedef long long ll;
+static ll cr(const Point &a, const Point &b, const Point &c) { return (ll)(b.x - a.x) * (ll)(c.y - a.y) - (ll)(c.x - a.x) * (ll)(b.y - a.y); }
+static int sg(ll v) { return v > 0 ? 1 : v < 0 ? -1 : 0; }
+static bool onClosed(const Point &a, const Point &b, const Point &c) {
+  return cr(a, b, c) == 0 && std::min(a.x, b.x) <= c.x && c.x <= std::max(a.x, b.x) && std::min(a.y, b.y) <= c.y && c.y <= std::max(a.y, b.y); }
+static int bad = 0;
+#define FAIL(...) do { if (bad < 8) { printf(__VA_ARGS__); printf("\n"); } bad++; } while (0)
+int main() {
+  const int G = 3; std::vector<Point> pts;
+  for (int x = 0; x <= G; ++x) for (int y = 0; y <= G; ++y) pts.push_back(Point(x, y));
+  size_t N = pts.size();
+  for (size_t i = 0; i < N; ++i) for (size_t j = 0; j < N; ++j) for (size_t k = 0; k < N; ++k) {
+    const Point &a = pts[i], &b = pts[j], &c = pts[k];
+    if (vecDir(a, b, c) != sg(cr(a, b, c))) FAIL("vecDir((%g,%g),(%g,%g),(%g,%g)) = %d, exact %d", a.x, a.y, b.x, b.y, c.x, c.y, vecDir(a, b, c), sg(cr(a, b, c)));
+    if (colinear(a, b, c) != (cr(a, b, c) == 0)) FAIL("colinear((%g,%g),(%g,%g),(%g,%g)) wrong", a.x, a.y, b.x, b.y, c.x, c.y);
+    bool strict = onClosed(a, b, c) && !(c == a) && !(c == b);
+    bool pol = pointOnLine(a, b, c);
+    if ((strict && !pol) || (!onClosed(a, b, c) && pol)) FAIL("pointOnLine((%g,%g),(%g,%g),(%g,%g)) = %d", a.x, a.y, b.x, b.y, c.x, c.y, (int)pol);
+    // triangles a,b,c (non-degenerate) and query points: inPolyGen / inPoly against the closed-triangle test
+    if (cr(a, b, c) != 0) {
+      Polygon tri(3); tri.ps[0] = a; tri.ps[1] = b; tri.ps[2] = c;
+      for (size_t m = 0; m < N; ++m) {
+        const Point &q = pts[m];
+        ll o0 = cr(a, b, q), o1 = cr(b, c, q), o2 = cr(c, a, q);
+        bool in = (o0 >= 0 && o1 >= 0 && o2 >= 0) || (o0 <= 0 && o1 <= 0 && o2 <= 0);
+        if (inPolyGen(tri, q) != in) FAIL("inPolyGen(triangle (%g,%g),(%g,%g),(%g,%g); q=(%g,%g)) = %d, exact %d", a.x, a.y, b.x, b.y, c.x, c.y, q.x, q.y, (int)inPolyGen(tri, q), (int)in);
+        if (cr(a, b, c) > 0) {   // inPoly expects the orientation for which inside means vecDir >= 0
+          bool inb = o0 >= 0 && o1 >= 0 && o2 >= 0, ins = o0 > 0 && o1 > 0 && o2 > 0;
+          if (inPoly(tri, q, true) != inb || inPoly(tri, q, false) != ins) FAIL("inPoly(triangle (%g,%g),(%g,%g),(%g,%g); q=(%g,%g)) wrong", a.x, a.y, b.x, b.y, c.x, c.y, q.x, q.y);
+        }
+      }
+    }
+    for (size_t l = 0; l < N; ++l) {
+      const Point &d = pts[l];
+      bool proper = sg(cr(a, b, c)) * sg(cr(a, b, d)) < 0 && sg(cr(c, d, a)) * sg(cr(c, d, b)) < 0;
+      if (segmentIntersect(a, b, c, d) != proper) FAIL("segmentIntersect((%g,%g),(%g,%g),(%g,%g),(%g,%g)) = %d, exact %d", a.x, a.y, b.x, b.y, c.x, c.y, d.x, d.y, (int)segmentIntersect(a, b, c, d), (int)proper);
+      double x, y; int code = segmentIntersectPoint(a, b, c, d, &x, &y);
+      ll dc = (ll)(b.x - a.x) * (ll)(d.y - c.y) - (ll)(b.y - a.y) * (ll)(d.x - c.x);
+      if (dc != 0) { int want = (cr(a, b, c) * cr(a, b, d) <= 0 && cr(c, d, a) * cr(c, d, b) <= 0) ? DO_INTERSECT : DONT_INTERSECT;
+        if (code != want) FAIL("segmentIntersectPoint((%g,%g),(%g,%g),(%g,%g),(%g,%g)) = %d, exact %d", a.x, a.y, b.x, b.y, c.x, c.y, d.x, d.y, code, want); }
+      else if (code == DO_INTERSECT) FAIL("segmentIntersectPoint reports one point for parallel segments");
+    }
+  }
+  // axis-parallel rectangles, both orientations
+  for (int x0 = 0; x0 < G; ++x0) for (int x1 = x0 + 1; x1 <= G; ++x1) for (int y0 = 0; y0 < G; ++y0) for (int y1 = y0 + 1; y1 <= G; ++y1) for (int flip = 0; flip < 2; ++flip) {
+    Polygon r(4); r.ps[0] = Point(x0, y0); r.ps[2] = Point(x1, y1); r.ps[1] = flip ? Point(x0, y1) : Point(x1, y0); r.ps[3] = flip ? Point(x1, y0) : Point(x0, y1);
+    for (size_t m = 0; m < N; ++m) { const Point &q = pts[m]; bool in = x0 <= q.x && q.x <= x1 && y0 <= q.y && q.y <= y1;
+      if (inPolyGen(r, q) != in) FAIL("inPolyGen(rectangle [%d,%d]x[%d,%d]%s; q=(%g,%g)) = %d, exact %d", x0, x1, y0, y1, flip ? " reversed" : "", q.x, q.y, (int)inPolyGen(r, q), (int)in); }
+  }
+  if (bad) { printf("REPRODUCED: %d disagreement(s) with exact arithmetic\n", bad); return 1; }
+  printf("not reproduced on the grid [0,%d]\n", G); return 0;
+}
+'''
+
+
+def replay_c16(job, obl, inputs, workdir):
+    lib = build_lib("libavoid", workdir)
+    rc, out = native_run(REPLAY_SRC, workdir, "replay_c16", extra=["-I", COLA], libs=[lib], timeout=600)
+    if rc is None:
+        return False, out
+    return rc == 1, out
+
+
 def jobs(tier):
     js = []
     pre = prelude("avoid_geomtypes.h")
@@ -119,21 +189,87 @@ def jobs(tier):
     js.append(Job("symmetry_lemmas", "U", spec, "h_symmetry", defines=["JOB_symmetry_lemmas"],
                   expect=[r'h_symmetry\.assertion'], domain="every interpretation of ORI satisfying the leaf lemmas",
                   note="lemma over the contracts (no code)"))
+    # ---------------- polygons and intersection points
+    poly_pre = prelude("avoid_polygon.h")
+    layout.check_layout("avoid_polygon16", pre + poly_pre, ["libavoid/geomtypes.h"],
+                        [("Avoid::Polygon", ["_id", "ps", "ts", "checkpointsOnRoute"])], sizes=["Avoid::Polygon"])
+    S["inPoly"] = slice_func(GC, r'^bool inPoly\(const Polygon& poly, const Point& q, bool countBorder\)', "inPoly")
+    S["inPolyGen"] = slice_func(GC, r'^bool inPolyGen\(const PolygonInterface& argpoly, const Point& q\)', "inPolyGen")
+    S["psize"] = slice_func(GT, r'^size_t Polygon::size\(void\) const', "Polygon::size")
+    S["sip"] = slice_func(GC, r'^int segmentIntersectPoint\(const Point& a1, const Point& a2,', "segmentIntersectPoint")
+    S["rip"] = slice_func(GC, r'^int rayIntersectPoint\(const Point& a1, const Point& a2,', "rayIntersectPoint")
+    S["codes"] = slice_lines(GH, r'^static const int (DONT_INTERSECT|DO_INTERSECT|PARALLEL) = \d;', 3, "intersection return codes")
+    ptu_head = "#include <verif_base.h>\n" + inc + pre + poly_pre
+    # inPoly: the function is placed in an extern "C" block so that its symbol has no comma (loop-contract symbol_map limitation)
+    inpoly_cxx = (ptu_head + SHIM_DECL + "namespace Avoid {\n" + SHIM["vecDir"] + S["psize"].text + "\n"
+                  'extern "C" {\n' + S["inPoly"].text + "\n}\n}\n"
+                  'extern "C" bool w_inPoly(void *poly, void *q, bool countBorder) { return Avoid::inPoly(*(const Avoid::Polygon *)poly, *(const Avoid::Point *)q, countBorder); }\n')
+    js.append(Job("inPoly", "U", spec, "h_inPoly", cxx=inpoly_cxx, enforce="w_inPoly", replace=["w_vecDir"], defines=["JOB_inPoly"],
+                  slices=[S["inPoly"], S["psize"]],
+                  loops=loops_file([loop_contract("Avoid::inPoly", 0,
+                                                  "i <= n && (verif_g < i ==> verif_gdir != -1) && ((verif_g < i && verif_gdir == 0) ==> onBorder)",
+                                                  "i, onBorder", "n - i", {"i": "1::1::i", "n": "1::n", "onBorder": "1::onBorder"})]),
+                  domain="all doubles, every polygon size n in [1,10^6], ghost edge index; vecDir replaced by its contract (ghost cell for the ghost edge's orientation)",
+                  expect=[r'w_inPoly\.postcondition', r'loop_invariant_base', r'loop_invariant_step', r'loop_decreases', r'index in bounds|assertion']))
+    nv = 4 if tier == "quick" else 6
+    js.append(Job("inPoly_bounded", "B", spec, "h_inPoly_bounded", cxx=inpoly_cxx, defines=["JOB_inPoly_bounded", "NV=%d" % nv],
+                  unwind=nv + 1, bound="polygons with at most %d vertices (unwind %d, unwinding assertions on)" % (nv, nv + 1),
+                  slices=[S["inPoly"]], domain="all doubles; orientation abstracted by the uninterpreted ORI", expect=[r'h_inPoly_bounded\.assertion', r'unwind']))
+    ipt_cxx = (ptu_head + "namespace Avoid {\n" + S["codes"].text + "\n" + S["sip"].text + "\n" + S["rip"].text + "\n}\n"
+               'extern "C" int w_segIntPoint(void *a1, void *a2, void *b1, void *b2, double *x, double *y) { return Avoid::segmentIntersectPoint('
+               '*(const Avoid::Point *)a1, *(const Avoid::Point *)a2, *(const Avoid::Point *)b1, *(const Avoid::Point *)b2, x, y); }\n'
+               'extern "C" int w_rayIntPoint(void *a1, void *a2, void *b1, void *b2, double *x, double *y) { return Avoid::rayIntersectPoint('
+               '*(const Avoid::Point *)a1, *(const Avoid::Point *)a2, *(const Avoid::Point *)b1, *(const Avoid::Point *)b2, x, y); }\n')
+    g8 = 1 if tier == "quick" else 2
+    for lo in range(g8 + 1):     # case split on the first x-coordinate: one job per value, run in parallel
+        js.append(Job("segmentIntersectPoint_grid_a1x%d" % lo, "D", spec, "h_segIntPoint", cxx=ipt_cxx, enforce="w_segIntPoint",
+                      defines=["JOB_segIntPoint", "GRID=%d" % g8, "SPLIT_LO=%d" % lo, "SPLIT_HI=%d" % lo],
+                      slices=[S["sip"]], domain="bit-precise IEEE doubles, every coordinate an integer in [0,%d] (8 coordinates), a1.x = %d; return code only" % (g8, lo),
+                      expect=exp_post, timeout=1500, flags=["--sat-solver", "cadical"], backend="sat:cadical"))
+    js.append(Job("rayIntersectPoint_grid", "D", spec, "h_rayIntPoint", cxx=ipt_cxx, enforce="w_rayIntPoint", defines=["JOB_rayIntPoint", "GRID=%d" % g8],
+                  slices=[S["rip"]], domain="bit-precise IEEE doubles, every coordinate an integer in [0,%d] (8 coordinates); return code only" % g8,
+                  expect=exp_post, timeout=1500, flags=["--sat-solver", "cadical"], backend="sat:cadical"))
+    # inPolyGen: bounded; `const PolygonInterface&` parameter retyped `const Polygon&` (the abstract interface has virtual functions the front end
+    # cannot take); the local copy `Polygon poly = argpoly;` then uses the bounded stub vector's deep copy
+    ipg_text = subst(S["inPolyGen"], [(r'const PolygonInterface& argpoly', 'const Polygon& argpoly', 1)])
+    ipg_cxx = (ptu_head + 'extern "C" void *malloc(size_t);\n'
+               "namespace Avoid {\nPolygon::Polygon() { }\n"
+               "// shim for the implicit copy constructor: deep copy of the vertex vector (the function shifts its private copy in place)\n"
+               "Polygon::Polygon(const Polygon& other) { _id = other._id; ps._n = other.ps._n; ps._cap = other.ps._n + 1;\n"
+               "  ps._d = (Point *)malloc(sizeof(Point) * (other.ps._n + 1)); for (size_t i = 0; i < other.ps._n; i++) ps._d[i] = other.ps._d[i]; }\n" +
+               S["psize"].text + "\n" + ipg_text + "\n}\n"
+               'extern "C" bool w_inPolyGen(void *poly, void *q) { return Avoid::inPolyGen(*(const Avoid::Polygon *)poly, *(const Avoid::Point *)q); }\n')
+    gq = 2 if tier == "quick" else 3
+    for shape, nm in ((3, "triangles"), (4, "rectangles")):
+        js.append(Job("inPolyGen_" + nm, "B", spec, "h_inPolyGen", cxx=ipg_cxx, defines=["JOB_inPolyGen", "SHAPE=%d" % shape, "GRID=%d" % gq],
+                      unwind=6, stub_variant="bounded", flags=["--sat-solver", "cadical", "--object-bits", "12", "--no-malloc-may-fail"], backend="sat:cadical", timeout=1500,
+                      bound="%s only (n = %d vertices), integer coordinates in [0,%d]; unwind 6 with unwinding assertions" % (nm, shape, gq),
+                      slices=[S["inPolyGen"]], domain="bit-precise IEEE doubles; every %s on the grid, every query point on the grid" %
+                                                       ("non-degenerate triangle (both orientations)" if shape == 3 else "axis-parallel rectangle with positive area (both orientations)"),
+                      expect=[r'h_inPolyGen\.assertion']))
+    for j in js:
+        j.replay = replay_c16
     return js
 
 
 LEVEL = "proof"
 TRUSTED = [
-    "cbmc/goto-cc/goto-instrument 6.11.0 and the MiniSat back end (bit-precise IEEE-754 semantics of +,-,*,/ and comparisons)",
-    "paper composition of the two layers: a caller theorem over the uninterpreted ORI holds for every interpretation, hence for the exact orientation the leaf jobs establish on the integer grid",
-    "extraction: verbatim function text from cola/libavoid/geometry.h, geometry.cpp, geomtypes.cpp; substitutions: std::numeric_limits<double>::epsilon() -> DBL_EPSILON; COLA_ASSERT -> __CPROVER_assert",
-    "prelude/avoid_geomtypes.h declares Avoid::Point's data members (layout cross-checked against the real header on every run)",
+    "cbmc/goto-cc/goto-instrument 6.11.0; MiniSat and CaDiCaL back ends (bit-precise IEEE-754 semantics of +,-,*,/ and comparisons)",
+    "paper composition of the two layers: a caller theorem over the uninterpreted ORI (or over the ghost cell verif_gdir in inPoly) holds for every interpretation, hence for the "
+    "exact orientation the leaf jobs establish on the integer grid",
+    "extraction: verbatim function text from cola/libavoid/geometry.h, geometry.cpp, geomtypes.cpp; substitutions: std::numeric_limits<double>::epsilon() -> DBL_EPSILON; "
+    "COLA_ASSERT -> __CPROVER_assert; inPoly placed in an extern \"C\" block (symbol without commas for the loop contract); inPolyGen's parameter type "
+    "const PolygonInterface& -> const Polygon& and an explicit deep-copy shim for Polygon's implicit copy constructor",
+    "prelude/avoid_geomtypes.h, prelude/avoid_polygon.h (layout cross-checked against the real header on every run); stub std::vector",
 ]
 ASSUMPTIONS = [
-    "class D jobs are complete proofs over the stated finite domain (integer coordinates in a small grid), not over all 'small integers'; the grid side is limited by solver time for floating-point multiplication",
-    "the coordinates returned by segmentIntersectPoint/rayIntersectPoint are not claimed (floating-point division accuracy)",
+    "class D jobs are complete proofs over the stated finite domain (integer coordinates in a small grid), not over all 'small integers'; the grid side is limited by solver time for "
+    "floating-point multiplication and division (8-coordinate functions: grid {0,1} quick, {0,1,2} thorough)",
+    "inPoly: the universally quantified direction (reported inside => every edge condition) is unbounded; the converse is the bounded job inPoly_bounded (n <= 4)",
+    "inPolyGen: bounded stand-in -- non-degenerate triangles and axis-parallel rectangles on the grid only; general/self-intersecting polygons are not covered",
+    "the coordinates returned by segmentIntersectPoint/rayIntersectPoint are not claimed (floating-point division accuracy); only the return code",
     "pointOnLine/inBetween at the segment's end points: unconstrained (code excludes them, comment says closed; the property does not choose)",
 ]
-EXPLANATION = ("Contracts on the real libavoid geometry predicates. Leaf layer: vecDir, colinear, pointOnLine, inBetween equal the exact integer "
-               "orientation/on-segment oracle bit-precisely on an integer grid. Caller layer: segmentIntersect and segmentShapeIntersect equal their "
-               "textbook definitions over an uninterpreted orientation for ALL doubles; symmetry lemmas over the contracts.")
+EXPLANATION = ("Contracts on the real libavoid geometry predicates. Leaf layer: vecDir, colinear, pointOnLine, inBetween, segmentIntersectPoint and rayIntersectPoint return codes equal "
+               "the exact integer oracle bit-precisely on an integer grid. Caller layer: segmentIntersect, segmentShapeIntersect and inPoly (loop contract, any polygon size) equal their "
+               "textbook definitions over an uninterpreted orientation for ALL doubles; Point::operator==/!=; symmetry lemmas; bounded stand-ins for inPoly's converse and inPolyGen.")
